@@ -328,7 +328,7 @@ def spawnOp (s : St) (inj : Inj) (ok : Bool) (cs : List (Option (Sum Nat Nat))) 
   let p := s.hs.length
   let s := s.newH { kind := .proc }
   let pipes : List (Nat × Nat) :=      -- (container index, handle)
-    (List.range cs.length).filterMap (fun i => match cs[i]? with | some (some (.inl h)) => some (i, h) | _ => none)
+    (List.range cs.length).filterMap (fun i => match cs[i]? with | some (some (Sum.inl h)) => some (i, h) | _ => none)
   -- uv__process_init_stdio for each container, in order
   let rec initStdio (s : St) (done : List (Nat × Nat)) : List (Nat × Nat) → St × Bool
     | [] => (s, true)
@@ -394,15 +394,15 @@ def step (s : St) (inj : Inj) (op : Op) : St :=
       -- uv__process_init → uv_signal_init → uv__signal_loop_once_init (signal.c:262-280)
       match s.sys inj "pipe2" with
       | (some _, s) =>
-        -- fail_signal_init: uv__platform_loop_delete only; backend_fd is not closed (loop.c:117-121)
-        ret (s.run [.closeOwner (.loop .ring) false, .transfer (.loop .backend) .leaked]) false
+        -- fail_signal_init: uv__platform_loop_delete, then backend_fd (loop.c:115-120)
+        ret (s.run [.closeOwner (.loop .ring) false, .closeOwner (.loop .backend) false]) false
       | (none, s) =>
         let s := s.run [.create .pipe2 .pipe (.loop .sig0), .create .pipe2 .pipe (.loop .sig1)]
         -- uv_async_init(&loop->wq_async) → uv__async_start (async.c:258-318)
         match s.sys inj "eventfd" with
         | (some _, s) =>
           ret (s.run [.closeOwner (.loop .sig0) false, .closeOwner (.loop .sig1) false,
-                      .closeOwner (.loop .ring) false, .transfer (.loop .backend) .leaked]) false
+                      .closeOwner (.loop .ring) false, .closeOwner (.loop .backend) false]) false
         | (none, s) => ret { s.run [.create .eventfd .evfd (.loop .async)] with loopOk := true } true
   | .loopClose =>
     if !s.loopOk then ret s false else
@@ -547,7 +547,7 @@ def step (s : St) (inj : Inj) (op : Op) : St :=
           | none => s
         match hh.kind with
         | .tcp =>
-          if (match target with | some t => (s.liveH t).isNone || ((s.liveH t).map (·.kind)) ≠ some .tcp | none => false) then bad s else
+          if (match target with | some t => decide (((s.liveH t).map (·.kind)) ≠ some .tcp) | none => false) then bad s else
           if hh.connected then ret s false else
           let (sockOk, s) := if hh.delayed || s.has (.handle h .io) then (true, s) else
             match s.sys inj "socket" with
